@@ -26,6 +26,56 @@ TEXT = {
             "limit, with messages steered onto the limit through payload and through options; the same workload runs under "
             "Miri, ASan (debug+release), valgrind memcheck and std ub_checks for the unsafe copies.",
             "runtime monitor: reference length oracle at limit boundaries; Miri + AddressSanitizer + valgrind memcheck + ub_checks on the unsafe copies"),
+    "C05": ("Finite spaces enumerated completely against hand-transcribed registry tables in both directions, plus every named "
+            "variant by name; exhaustive over the stated finite sets.",
+            "runtime monitor: exhaustive differential check against independently transcribed registry tables"),
+    "C06": ("Exhaustive 8/16-bit and short byte-string sweeps plus boundary and random 32/64-bit values against an arithmetic oracle; "
+            "typed accessors compared with raw lists; Miri on a sample.",
+            "runtime monitor: arithmetic oracle (minimal big-endian) over exhaustive + boundary + random inputs"),
+    "C07": ("The full product of type x version x token length x message id (sampled in quick, complete in thorough) is pushed through "
+            "response preparation and error rendering and every correlation field is compared with the request.",
+            "runtime monitor: correlation oracle over the enumerated request space, error-shape enumeration"),
+    "C08": ("An in-order Block2 client drives the real handler through encoded datagrams; reassembled bytes, block arithmetic, option "
+            "echo, single application consultation and cache release are asserted for thousands of body/budget/strategy combinations.",
+            "runtime monitor: block-wise test client over encoded datagrams, reassembly oracle = application body"),
+    "C09": ("A Block1 client uploads bodies with duplicated blocks and abandoned earlier uploads; acknowledgements and the body the "
+            "application finally sees are compared with what was sent; the 4.13 path is checked on both sides of the budget band.",
+            "runtime monitor: upload histories (duplicates, abandoned prefixes) with delivered-body oracle"),
+    "C10": ("Every reply the handler produces is measured as encoded bytes against the configured budget across budgets placed on "
+            "every power-of-two threshold; the chosen block size is compared with the client's request.",
+            "runtime monitor: encoded-length and block-size-choice oracle at budget thresholds"),
+    "C11": ("Hostile request sequences and application replies under budgets from 0 up; both entry points are wrapped in panic capture, "
+            "errors are rendered, and the buffered-upload length is observed before and after every call.",
+            "runtime monitor: panic capture + error renderability + buffer-growth bound (hook + delivered body) under fuzzed histories; Miri/ASan smoke"),
+    "C12": ("Every interleaving of 2-3 scripted transfers (whole exchanges and half exchanges) is executed and each transfer's transcript "
+            "compared with its solo run; unique mid/token per request expose stale correlation fields.",
+            "runtime monitor: exhaustive schedule enumeration with solo-run transcript oracle (non-interference)"),
+    "C13": ("Exhaustive encode/decode over the whole (num, more, szx) space and all short byte strings, constructor swept over sizes and "
+            "numbers, against an arithmetic oracle.",
+            "runtime monitor: arithmetic oracle over exhaustive block-value space"),
+    "C14": ("Bounded-exhaustive operation histories plus long random ones are replayed against the real Subject and a sequential model of "
+            "the registry, compared after every step (observer lists, order, tokens, isolation, no creation by rounds).",
+            "runtime monitor: step-by-step comparison with sequential reference model over exhaustive bounded histories"),
+    "C15": ("The same histories with the full accounting model (counts and pending ids through hooks, eviction exactly past the limit, "
+            "sequence +1), directed long runs at limits up to 255, and the notification builder.",
+            "runtime monitor: sequential reference model incl. private counters (hooks / replay-and-probe), directed long histories"),
+    "C16": ("Writer output for exhaustive hostile values and random documents is parsed back and compared link by link, key by key, "
+            "value by value.",
+            "runtime monitor: write-then-parse round-trip oracle"),
+    "C17": ("All short strings over the structural alphabet plus random and prefix inputs are fed to the parser; termination, substring "
+            "and order of yields, silence after error and agreement of both unquoting paths are asserted; Miri and ASan watch the "
+            "pointer arithmetic.",
+            "runtime monitor: totality + pointer-range + to_cow/to_string agreement over exhaustive short strings; Miri, ASan"),
+    "C18": ("Per document every sink call index is failed once and persistently, with and without newlines - the fault space of each "
+            "document is enumerated completely.",
+            "fault injection: complete enumeration of sink failure points per document with prefix/err oracle"),
+    "C19": ("Every named value through setter/getter/raw/wire from several prior states, exhaustive short paths, raw Observe bytes, and "
+            "both coap-message trait versions against raw state.",
+            "runtime monitor: accessor-vs-raw-state oracle over exhaustive names and short paths, trait-view differential"),
+    "C20": ("Histories with time run under a frozen, injected clock so that both 'still alive' and 'must be expired' are decided "
+            "deterministically; physical reclamation is observed through endpoint-instance and large-allocation accounting; "
+            "real-time runs assert the expired direction only.",
+            "runtime monitor: delay injection via interposed clock_gettime, counting endpoint + counting allocator for reclamation"),
 }
 
 NOTE = ("Trusted: the harness oracles (reference codec / models / registry tables in /verif/harness/src, written from the RFCs and the "
